@@ -50,6 +50,10 @@ CHECKS = {
    text="Seeded search over interleavings of 2-4 reader clients on a shared lazily decoded message: every atomic/lock operation of the real code is a pre-emption point decided by a seeded scheduler (random walk, PCT, site-biased), run under the race detector with a scheduler hand-off that is invisible to it. Checked per run: single instance per lazy field across all clients and access routes, every result equal to the same script run sequentially on a private replica, no panic, no data race, no deadlock/livelock.",
    note="Sequentially consistent interleavings at synchronisation-operation granularity plus happens-before race detection; sampling, not enumeration. Shims and runtime overlay trusted (see assumptions in evidence).",
    technique="deterministic simulation: seeded schedule search over real code with race detection, sequential-replica oracle, replayable tapes"),
+ "C19": dict(level="exploration", ref="DESIGN.md section 4 (C19)",
+   text="Seeded search over interleavings of 2-4 clients making first use of never-used lazily initialised objects, under the race detector: in-process on fresh copies (compact-builder file descriptors over a local registry, MessageInfo, ExtensionInfo, dynamicpb.Types, registries swapped into GlobalFiles/GlobalTypes) and in fresh OS processes for the process-global generated types, descriptors, legacy wrappers and caches. Observations of every client (descriptor renderings, lookup-table consistency, instance identity, codec and reflection behaviour) must equal the sequential run; no race, panic or deadlock.",
+   note="Sampling of schedules; first use of an object can be explored once per fresh copy or process. Shims, runtime overlay and the scheduler are trusted; sequential semantics are taken as the reference.",
+   technique="deterministic simulation: seeded schedule search over first-use paths of fresh objects and fresh processes, race detection, sequential-run oracle"),
 }
 
 def main():
